@@ -67,7 +67,7 @@ fn wf_row<const K: usize>(row: &[Trans; K]) -> bool {
 ///   u >= P_K + eps                   =>  no transition
 /// with eps = 2^-21 (two draw-grid points plus the f32 rounding of the running sum), plus the exact
 /// clauses: probability 1 is always taken; at most one word is drawn; a missing row draws nothing.
-fn c06_row<const K: usize>() {
+fn c06_row<const K: usize>(fixed_events: bool) {
     const NT: Option<Vec<Trans>> = None;
     let mut row: [Trans; K] = [Trans(0, 0.0); K];
     let mut i = 0;
@@ -77,9 +77,10 @@ fn c06_row<const K: usize>() {
     }
     kani::assume(wf_row(&row));
     let decl = row;
-    let e: usize = kani::any();
+    // K <= 2: any event; larger rows: one fixed pair of events (the row logic does not depend on the event)
+    let e: usize = if fixed_events { 3 } else { kani::any() };
     kani::assume(e < EVENT_NUM);
-    let other: usize = kani::any();
+    let other: usize = if fixed_events { 4 } else { kani::any() };
     kani::assume(other < EVENT_NUM && other != e);
     let mut tr = [NT; EVENT_NUM];
     tr[e] = Some(unsafe { vec_over(&mut row) });
@@ -132,22 +133,22 @@ fn c06_row<const K: usize>() {
 #[kani::proof]
 #[kani::unwind(3)]
 fn k_sample_state_k1() {
-    c06_row::<1>();
+    c06_row::<1>(false);
 }
 #[kani::proof]
 #[kani::unwind(4)]
 fn k_sample_state_k2() {
-    c06_row::<2>();
+    c06_row::<2>(false);
 }
 #[kani::proof]
 #[kani::unwind(5)]
 fn k_sample_state_k3() {
-    c06_row::<3>();
+    c06_row::<3>(true);
 }
 #[kani::proof]
 #[kani::unwind(6)]
 fn k_sample_state_k4() {
-    c06_row::<4>();
+    c06_row::<4>(true);
 }
 
 /// Exact threshold form for the draw the crate documents ("one uniform draw in [0,1)" obtained
